@@ -1,1 +1,169 @@
 // Kani contract harnesses for /repo/parquet/src/bloom_filter/mod.rs (child module: sees private items via super::)
+//
+// Division of labour: Block::mask / insert / check and Sbbf::hash_to_block_index / insert_hash / check_hash are proved
+// in Verus on the verbatim text (verus/bloom_block.spec.toml). This file holds (a) the Kani discharge of the two literal
+// rewrites used there (`self[i]` -> `self.0[i]`), (b) the fold count bound of fold_to_target_fpp, (c) sizing, (d) byte-level round trip.
+use super::*;
+#[path = "/verif/kani/support/spec.rs"]
+mod spec;
+#[allow(unused_imports)]
+use spec::*;
+
+// Contract (C07): Block's Index / IndexMut impls delegate to the inner array: for every block and every i < 8,
+// `&blk[i]` IS `&blk.0[i]` (same address, same value) and `blk[i] = v` / `blk[i] |= v` writes exactly word i of blk.0
+// (frame: the other seven words unchanged); BitOr / BitOrAssign for Block are word-wise OR; count_ones is the sum of the
+// eight word popcounts. This discharges the `self[i]` -> `self.0[i]` rewrite of the Verus units Block::insert / Block::check.
+// @unit name=block_index_delegates props=C07 kind=complete fns=Block::index,Block::index_mut,Block::bitor,Block::bitor_assign,Block::count_ones timeout=300
+#[kani::proof]
+#[kani::unwind(10)]
+fn block_index_delegates() {
+    let a: [u32; 8] = kani::any(); let b: [u32; 8] = kani::any();
+    let i: usize = kani::any(); kani::assume(i < 8);
+    let v: u32 = kani::any();
+    let blk = Block(a);
+    assert!(blk[i] == a[i]);
+    assert!(std::ptr::eq(&blk[i], &blk.0[i]));
+    // IndexMut: plain store and the compound `|=` used by Block::insert
+    let mut m = Block(a);
+    assert!(std::ptr::eq(&mut m[i] as *mut u32 as *const u32, &m.0[i] as *const u32));
+    m[i] = v;
+    let mut o = Block(a);
+    o[i] |= v;
+    let mut k = 0;
+    while k < 8 {
+        assert!(m.0[k] == if k == i { v } else { a[k] });
+        assert!(o.0[k] == if k == i { a[k] | v } else { a[k] });
+        k += 1;
+    }
+    // BitOr / BitOrAssign are word-wise
+    let r = Block(a) | Block(b);
+    let mut s = Block(a); s |= Block(b);
+    let mut k = 0; let mut ones = 0u32;
+    while k < 8 { assert!(r.0[k] == (a[k] | b[k]) && s.0[k] == (a[k] | b[k])); ones += a[k].count_ones(); k += 1; }
+    assert!(Block(a).count_ones() == ones);
+    kani::cover!(i == 7 && v != a[7]);
+    kani::cover!(i == 0 && a[0] | v != a[0]);
+}
+
+// (Sbbf::fold_n monotonicity and BitOrAssign are proved unbounded in Verus; the bounded Kani units that used a memoising
+// nondeterministic stub for Block::mask were removed -- they all passed for 2/4/8 blocks and 1..3 folds, 41-396 s under load.)
+
+// Contract (C07): num_folds_for_target_fpp never asks for more folds than the filter can take: for a filter of
+// LEN in {2,4,8} blocks with arbitrary contents and an arbitrary f64 target (NaN and infinities included) the result is
+// <= log2(LEN), so fold_n's `group_size <= len` assertion cannot fire from fold_to_target_fpp. (Floating-point
+// estimate itself is not specified here.)
+macro_rules! num_folds_unit {
+    ($name:ident, $len:expr, $log:expr) => {
+        #[kani::proof]
+        #[kani::unwind(10)]
+        #[kani::stub(alloc::fmt::format, stub_format)]
+        fn $name() {
+            let words: [[u32; 8]; $len] = kani::any();
+            let mut v = Vec::with_capacity($len);
+            let mut i = 0; while i < $len { v.push(Block(words[i])); i += 1; }
+            let f = Sbbf(v);
+            let t: f64 = kani::any();
+            let k = f.num_folds_for_target_fpp(t);
+            assert!(k <= $log);
+            kani::cover!(k == $log); kani::cover!(k == 0);
+        }
+    };
+}
+// @unit name=num_folds_bounded_4 props=C07 kind=bounded bound=4_blocks fns=Sbbf::num_folds_for_target_fpp timeout=600
+num_folds_unit!(num_folds_bounded_4, 4, 2);
+// @unit name=num_folds_bounded_8 props=C07 kind=bounded bound=8_blocks fns=Sbbf::num_folds_for_target_fpp timeout=900
+num_folds_unit!(num_folds_bounded_8, 8, 3);
+
+// Contract (C07): optimal_num_of_bytes(n), for every usize n, is the least power of two >= clamp(n, 32, 128 MiB):
+// a power of two, within [BITSET_MIN_LENGTH, BITSET_MAX_LENGTH], >= the clamped request and < twice it; hence a
+// multiple of the 32-byte block size (new_with_num_of_bytes' assert_eq cannot fire).
+// @unit name=optimal_num_of_bytes_contract props=C07 kind=complete fns=optimal_num_of_bytes timeout=120
+#[kani::proof]
+fn optimal_num_of_bytes_contract() {
+    let n: usize = kani::any();
+    let r = optimal_num_of_bytes(n);
+    let c = if n < BITSET_MIN_LENGTH { BITSET_MIN_LENGTH } else if n > BITSET_MAX_LENGTH { BITSET_MAX_LENGTH } else { n };
+    assert!(r.count_ones() == 1);
+    assert!(r >= BITSET_MIN_LENGTH && r <= BITSET_MAX_LENGTH);
+    assert!(r >= c && r / 2 < c);
+    assert!(r % 32 == 0);
+    kani::cover!(n == 33 && r == 64); kani::cover!(n > BITSET_MAX_LENGTH); kani::cover!(n == 0 && r == 32);
+}
+
+// Contract (C07): Sbbf::new_with_num_of_bytes(n) is an all-zero filter of optimal_num_of_bytes(n)/32 blocks
+// (a power of two >= 1), at concrete request sizes around the block boundaries.
+macro_rules! new_bytes_unit {
+    ($name:ident, $n:expr, $blocks:expr) => {
+        #[kani::proof]
+        #[kani::unwind(10)]
+        #[kani::stub(alloc::fmt::format, stub_format)]
+        fn $name() {
+            let f = Sbbf::new_with_num_of_bytes($n);
+            assert!(f.0.len() == $blocks && f.num_blocks() == $blocks);
+            let (b, w): (usize, usize) = (kani::any(), kani::any());
+            kani::assume(b < $blocks && w < 8);
+            assert!(f.0[b].0[w] == 0);
+            kani::cover!(b == $blocks - 1 && w == 7);
+        }
+    };
+}
+// @unit name=new_with_num_of_bytes_0 props=C07 kind=bounded bound=request_0_bytes fns=Sbbf::new_with_num_of_bytes timeout=300
+new_bytes_unit!(new_with_num_of_bytes_0, 0, 1);
+// @unit name=new_with_num_of_bytes_33 props=C07 kind=bounded bound=request_33_bytes fns=Sbbf::new_with_num_of_bytes timeout=300
+new_bytes_unit!(new_with_num_of_bytes_33, 33, 2);
+// @unit name=new_with_num_of_bytes_129 props=C07 kind=bounded bound=request_129_bytes fns=Sbbf::new_with_num_of_bytes timeout=300
+new_bytes_unit!(new_with_num_of_bytes_129, 129, 8);
+
+// Contract (C07/C05): the bitset byte layout round-trips: Sbbf::new(bytes) has len(bytes)/32 blocks whose word w of
+// block b is the little-endian u32 at byte 32 b + 4 w, and write_bitset writes exactly those bytes back.
+macro_rules! bitset_roundtrip_unit {
+    ($name:ident, $blocks:expr, $bytes:expr) => {
+        #[kani::proof]
+        #[kani::unwind(34)]
+        #[kani::stub(alloc::fmt::format, stub_format)]
+        fn $name() {
+            let bytes: [u8; $bytes] = kani::any();
+            let f = Sbbf::new(&bytes);
+            assert!(f.0.len() == $blocks);
+            let (b, w): (usize, usize) = (kani::any(), kani::any());
+            kani::assume(b < $blocks && w < 8);
+            let o = 32 * b + 4 * w;
+            assert!(f.0[b].0[w] == u32::from_le_bytes([bytes[o], bytes[o + 1], bytes[o + 2], bytes[o + 3]]));
+            let mut out: Vec<u8> = Vec::with_capacity($bytes);
+            let ok = f.write_bitset(&mut out).is_ok();
+            assert!(ok && out.len() == $bytes);
+            let i: usize = kani::any(); kani::assume(i < $bytes);
+            assert!(out[i] == bytes[i]);
+            kani::cover!(i == $bytes - 1 && bytes[i] == 0xA5);
+        }
+    };
+}
+// @unit name=bitset_roundtrip_1 props=C07 kind=bounded bound=1_block fns=Sbbf::new,Sbbf::write_bitset timeout=600
+bitset_roundtrip_unit!(bitset_roundtrip_1, 1, 32);
+// @unit name=bitset_roundtrip_2 props=C07 kind=bounded bound=2_blocks fns=Sbbf::new,Sbbf::write_bitset timeout=600
+bitset_roundtrip_unit!(bitset_roundtrip_2, 2, 64);
+
+// Contract (C07/C08): Sbbf::write then Sbbf::from_bytes returns the same blocks (header + bitset), and from_bytes
+// rejects the same bytes with one trailing byte added or removed ("bitset consumes all remaining bytes").
+// @unit name=write_from_bytes_roundtrip_1 props=C07 kind=bounded bound=1_block fns=Sbbf::write,Sbbf::from_bytes,Sbbf::header timeout=900 mem=4
+#[kani::proof]
+#[kani::unwind(34)]
+#[kani::stub(alloc::fmt::format, stub_format)]
+fn write_from_bytes_roundtrip_1() {
+    let words: [u32; 8] = kani::any();
+    let f = Sbbf(vec![Block(words)]);
+    let mut out: Vec<u8> = Vec::with_capacity(64);
+    assert!(f.write(&mut out).is_ok());
+    let n = out.len();
+    assert!(n > 32 && n <= 64);
+    match Sbbf::from_bytes(&out) {
+        Ok(g) => {
+            assert!(g.0.len() == 1);
+            let w: usize = kani::any(); kani::assume(w < 8);
+            assert!(g.0[0].0[w] == words[w]);
+            kani::cover!(words[7] == 0xDEADBEEF);
+        }
+        Err(e) => { std::mem::forget(e); assert!(false); }
+    }
+    match Sbbf::from_bytes(&out[..n - 1]) { Ok(_) => assert!(false), Err(e) => std::mem::forget(e) }
+}
